@@ -16,6 +16,7 @@ import YangVerif.Drv.C07
 import YangVerif.Drv.C06
 import YangVerif.Drv.C01
 import YangVerif.Drv.C02
+import YangVerif.Drv.C14
 import YangVerif.Drv.C16
 
 def dispatch (line : String) : String :=
@@ -31,6 +32,7 @@ def dispatch (line : String) : String :=
   | "c15" :: rest => YangVerif.Drv.C15.handle rest
   | "c01" :: rest => YangVerif.Drv.C01.handle rest
   | "c02" :: rest => YangVerif.Drv.C02.handle rest
+  | "c14" :: rest => YangVerif.Drv.C14.handle rest
   | "c06" :: rest => YangVerif.Drv.C06.handle rest
   | "c07" :: rest => YangVerif.Drv.C07.handle rest
   | "c16" :: rest => YangVerif.Drv.C16.handle rest
